@@ -1816,6 +1816,12 @@ impl<'l, T: Subject> Session<'l, T> {
                     ));
                 }
                 let blk = match alloc::find(p) {
+                    // an owner Vec that never allocated (capacity 0): identified by its box
+                    _ if vcap == 0 && len == 0 && p == buf => {
+                        let key = 0x8000_0000 | alloc::block_at(inner).map_or(0, |b| b.serial);
+                        let n = self.impl_blk.len();
+                        format!("b{}", *self.impl_blk.entry(key).or_insert(n))
+                    }
                     Some(b) if b.live && p + len <= b.start + b.size => {
                         let n = self.impl_blk.len();
                         format!("b{}", *self.impl_blk.entry(b.serial).or_insert(n))
@@ -2261,9 +2267,13 @@ fn payload(rng: &mut Rng, len: usize, text: bool) -> Vec<u8> {
     }
 }
 
+/// the largest char boundary `<= i` (only meaningful for text; the identity on a boundary)
 fn floor_boundary(v: &[u8], mut i: usize) -> usize {
     i = i.min(v.len());
-    while !is_boundary(v, i) {
+    if std::str::from_utf8(v).is_err() {
+        return i;
+    }
+    while i > 0 && !is_boundary(v, i) {
         i -= 1;
     }
     i
@@ -2742,6 +2752,10 @@ fn campaign<T: Subject>(backend: &str, n: usize, seed: u64, st: &mut Stats, lean
 fn run_all(cli: &hipverif_harness::util::Cli, st: &mut Stats, lean: &mut Option<LeanDriver>, save: &Option<String>) -> Result<String, String> {
     let thorough = cli.tier == "thorough";
     let mult = if thorough { 50 } else { 1 };
+    // development aids: `--div N` divides the random counts, `--no-exhaustive`
+    let div: usize = cli.extra.iter().position(|a| a == "--div").and_then(|i| cli.extra.get(i + 1)).and_then(|v| v.parse().ok()).unwrap_or(1);
+    let no_exh = cli.extra.iter().any(|a| a == "--no-exhaustive");
+    let verbose = cli.extra.iter().any(|a| a == "--verbose");
     // corpus of minimised past failures first
     let corpus = "/verif/corpus/core";
     let mut corpus_n = 0;
@@ -2757,10 +2771,17 @@ fn run_all(cli: &hipverif_harness::util::Cli, st: &mut Stats, lean: &mut Option<
     }
     let mut exh = 0u64;
     for b in ["arc", "rc", "unique"] {
-        dispatch!("byt", b, campaign, b, 1500 * mult, cli.seed, st, lean, save)?;
-        dispatch!("str", b, campaign, b, 800 * mult, cli.seed, st, lean, save)?;
-        dispatch!("os", b, campaign, b, 400 * mult, cli.seed, st, lean, save)?;
-        dispatch!("path", b, campaign, b, 300 * mult, cli.seed, st, lean, save)?;
+        let t0 = std::time::Instant::now();
+        dispatch!("byt", b, campaign, b, 1500 * mult / div, cli.seed, st, lean, save)?;
+        dispatch!("str", b, campaign, b, 800 * mult / div, cli.seed, st, lean, save)?;
+        dispatch!("os", b, campaign, b, 400 * mult / div, cli.seed, st, lean, save)?;
+        dispatch!("path", b, campaign, b, 300 * mult / div, cli.seed, st, lean, save)?;
+        if verbose {
+            eprintln!("{b}: random done, {} steps, {:.1}s", st.evaluations, t0.elapsed().as_secs_f64());
+        }
+        if no_exh {
+            continue;
+        }
         let depth = if thorough { 3 } else { 2 };
         exh += dispatch!("byt", b, exhaustive, b, REAL_CEIL, depth, st, lean, save)?;
         if b != "unique" {
@@ -2770,6 +2791,9 @@ fn run_all(cli: &hipverif_harness::util::Cli, st: &mut Stats, lean: &mut Option<
             exh += dispatch!("str", b, exhaustive, b, REAL_CEIL, 2, st, lean, save)?;
             exh += dispatch!("os", b, exhaustive, b, REAL_CEIL, 2, st, lean, save)?;
             exh += dispatch!("path", b, exhaustive, b, REAL_CEIL, 2, st, lean, save)?;
+        }
+        if verbose {
+            eprintln!("{b}: exhaustive done, {exh} sequences, {} steps, {:.1}s", st.evaluations, t0.elapsed().as_secs_f64());
         }
     }
     Ok(format!(
